@@ -1,7 +1,9 @@
 """C35: pool sources are distinct, bounded and respect the ignore list.
 Model: coq/Model/Pool.v; theorems: coq/Props/C35.v; tie: the real PoolSpawner (try_spawn,
 handle_source_removed, is_complete, and its private current_sources / known_ips) through
-harness/ntpd/c35.rs, whole histories with scripted DNS answers."""
+harness/ntpd/c35.rs, whole histories with scripted DNS answers; and the real NtsPoolSpawner through
+harness/ntpd/c35n.rs (own driver test verif_c35n_driver), whole histories with real NTS key exchanges
+against scripted key exchange servers on loopback ports."""
 import os
 
 from tools import vplib
@@ -250,6 +252,284 @@ def corpus_cases():
     return res
 
 
+# ================================================================ NTS pool (nts_pool.rs)
+# case: {"nts": 1, "srv": 0|1, "count": n, "ops": [["T", [beh, ...]], ["R", j]]}
+# srv = 0 (enable_srv_resolution = false), one behaviour per connection accepted by the one listener:
+#   ["O", k, port] answer naming server k | ["E"] connection dropped | ["P"] no common protocol |
+#   ["H"] never answered (5 s) | ["X"] listener closed
+# srv = 1 (enable_srv_resolution = true), the queue known_resolutions of this round, one listener per entry:
+#   ["O", s, k, port] | ["E", s] | ["P", s] | ["H", s] | ["X", s]   s = SRV record name (-1: none); last entry ["X", -1]
+def nts_line_of(case):
+    t = [str(case["count"]), str(case.get("srv", 0))]
+    for op in case["ops"]:
+        if op[0] == "T":
+            t += ["T", str(len(op[1]))]
+            for b in op[1]:
+                t += [str(x) for x in b]
+        else:
+            t += ["R", str(op[1])]
+    return " ".join(t)
+
+
+def nts_resolves(k):
+    return k < 5000 or k in (9000, 9001)
+
+
+def srv_key(s):
+    """the name a source reached through SRV name s is filed under; s = 0 is the string "localhost", which is also
+    what an answer without Server record (k = 9000) gives on a connection without SRV name"""
+    return 9000 if s == 0 else 20000 + s
+
+
+def nts_coq_input(case):
+    ops = []
+    srv = case.get("srv", 0)
+    for op in case["ops"]:
+        if op[0] == "T":
+            outs = []
+            for b in op[1]:
+                if srv:
+                    name = "None" if b[1] < 0 else "Some %s" % vplib.zlit(srv_key(b[1]))
+                    beh = ("SbOk %s %s" % (vplib.zlit(b[2]), vplib.blit(nts_resolves(b[2]))) if b[0] == "O" else
+                           {"E": "SbError", "P": "SbError", "H": "SbTimeout", "X": "SbRefused"}[b[0]])
+                    outs.append("(%s, %s)" % (name, beh))
+                elif b[0] == "O":
+                    outs.append("KeOk None %s %s" % (vplib.zlit(b[1]), vplib.blit(nts_resolves(b[1]))))
+                else:
+                    outs.append({"E": "KeError", "P": "KeError", "H": "KeTimeout", "X": "KeNoLookup"}[b[0]])
+            if srv:
+                ops.append("SrvTrySpawn %s" % (vplib.coq_list(outs) if outs else "(@nil srv_entry)"))
+            else:
+                ops.append("NtsTrySpawn %s" % (vplib.coq_list(outs) if outs else "(@nil ke_outcome)"))
+        else:
+            ops.append("%s %s" % ("SrvRemoved" if srv else "NtsRemoved", vplib.zlit(op[1])))
+    typ = "srv_op" if srv else "nts_op"
+    return "(%s %d%%nat %s)" % ("srv_case" if srv else "nts_case", case["count"], vplib.coq_list(ops) if ops else "(@nil %s)" % typ)
+
+
+def nts_split_output(case, out):
+    """-> (records, final current) or None; record for T: ("T", connections, [(id, name)...], complete)"""
+    try:
+        v = [int(x) for x in out[:-1]]      # the last token is the same-address observation
+    except ValueError:
+        return None
+    p = 0
+    recs = []
+    try:
+        for op in case["ops"]:
+            if op[0] == "T":
+                conns, n = v[p], v[p + 1]; p += 2
+                evs = [(v[p + 2 * j], v[p + 2 * j + 1]) for j in range(n)]; p += 2 * n
+                recs.append(("T", conns, evs, v[p])); p += 1
+                if case.get("srv", 0):
+                    p += 1          # length of known_resolutions
+            else:
+                recs.append(("R", v[p])); p += 1
+        n = v[p]; p += 1
+        cur = [(v[p + 2 * j], v[p + 2 * j + 1]) for j in range(n)]; p += 2 * n
+    except IndexError:
+        return None
+    if p != len(v):
+        return None
+    return recs, cur
+
+
+def nts_monitor(case, out):
+    """the property on one run of the real NtsPoolSpawner, from the SpawnEvents and the removals only:
+    never more than count active sources, never two active sources with the same remote name"""
+    if out and out[0] == "PANIC":
+        return None     # a consistency check of the harness failed: the comparison with the model reports it
+    r = nts_split_output(case, out)
+    if r is None:
+        return None
+    active = {}
+    created = []
+    for k, (op, rec) in enumerate(zip(case["ops"], r[0])):
+        if op[0] == "T":
+            for sid, name in rec[2]:
+                what = None
+                if name in active.values():
+                    what = "two active NTS pool sources for the same remote name #%d" % name
+                elif len(active) + 1 > case["count"]:
+                    what = "%d active NTS pool sources with count = %d" % (len(active) + 1, case["count"])
+                if what:
+                    return ("%s (operation %d of: %s)" % (what, k, nts_line_of(case)),
+                            {"count": case["count"], "operations": case["ops"][:k + 1],
+                             "active_before": sorted(active.items()), "event": [sid, name]})
+                active[sid] = name
+                created.append(sid)
+        elif op[1] < len(created):
+            active.pop(created[op[1]], None)
+    if out and out[-1] == "1":
+        # the harness saw two current sources of the real NtsPoolSpawner at one socket address (their remote NAMES
+        # differ): by the property text (never two active sources for the same server address) a failing history;
+        # listed as an open known finding (the NTS pool tells servers apart by name only)
+        return ("two active NTS pool sources at the same socket address although their remote names differ (%s)" % nts_line_of(case),
+                {"class": "C35-nts-pool-same-address", "count": case["count"], "operations": case["ops"]})
+    return None
+
+
+class NtsSim:
+    """generator aid only: guesses the active sources so that removals mostly hit one"""
+
+    def __init__(self, count, srv):
+        self.count, self.srv, self.cur, self.n = count, srv, [], 0
+
+    def names(self):
+        return [x for _, x in self.cur]
+
+    def spawn(self, behs):
+        q = list(behs)
+        for _ in range(max(0, self.count - len(self.cur))):
+            if self.srv:
+                while q and ((q[0][1] >= 0 and srv_key(q[0][1]) in self.names()) or q[0][0] == "X"):
+                    q.pop(0)
+            if not q or q[0][0] == "X":
+                return
+            b = q.pop(0)
+            if b[0] in ("E", "P"):
+                return
+            if b[0] == "O":
+                k = b[2] if self.srv else b[1]
+                key = srv_key(b[1]) if (self.srv and b[1] >= 0) else k
+                if nts_resolves(k) and key not in self.names():
+                    self.cur.append((self.n, key))
+                    self.n += 1
+
+    def remove(self, j):
+        self.cur = [(i, a) for i, a in self.cur if i != j]
+
+
+def nts_gen_case(rng, stats, hang, srv):
+    """hang: number of never-answered connections this case may contain (each costs 5 s of wall
+    time in its worker thread)"""
+    names = rng.sample([1, 2, 3, 4, 5, 255, 256, 4999, 9000, 9001, 5000, 5001], rng.randint(2, 6))
+    srvs = rng.sample([0, 1, 2, 3, 5, 257, 511], rng.randint(1, 4))
+    count = rng.choice([0, 1, 1, 2, 2, 2, 3, 3, 4, 5])
+    sim = NtsSim(count, srv)
+    ops = []
+    for _ in range(rng.randint(1, 10)):
+        if rng.random() < 0.6 or not ops:
+            behs = []
+            for _ in range(rng.choice([0, 1, 1, 2, 2, 3, 3, 4, count, count + 1, count + 2])):
+                s = [rng.choice(srvs) if rng.random() < 0.7 else -1] if srv else []
+                r = rng.random()
+                if hang > 0 and r < 0.3:
+                    behs.append(["H"] + s); hang -= 1
+                elif r < 0.08:
+                    behs.append(["E"] + s)
+                elif r < 0.12:
+                    behs.append(["P"] + s)
+                elif r < (0.22 if srv else 0.17):
+                    behs.append(["X"] + s)
+                elif r < 0.35 and sim.cur and not srv:
+                    behs.append(["O", rng.choice(sim.cur)[1], rng.choice([123, 123, 124])])   # a name already active
+                else:
+                    behs.append(["O"] + s + [rng.choice(names), rng.choice([123, 123, 123, 124, 4123])])
+            if srv:
+                behs.append(["X", -1])
+            for b in behs:
+                stats["nts_conn_" + b[0]] = stats.get("nts_conn_" + b[0], 0) + 1
+            ops.append(["T", behs])
+            sim.spawn(behs)
+        else:
+            r = rng.random()
+            if r < 0.8 and sim.cur:
+                j = rng.choice(sim.cur)[0]
+            elif r < 0.9:
+                j = rng.randint(0, max(0, sim.n - 1))
+            else:
+                j = sim.n + rng.randint(0, 3)
+            ops.append(["R", j])
+            sim.remove(j)
+    return {"nts": 1, "srv": srv, "count": count, "ops": ops}
+
+
+def nts_fixed_cases():
+    O = lambda k, p=123: ["O", k, p]
+    S = lambda s, k, p=123: ["O", s, k, p]
+    END = ["X", -1]
+    return [
+        # the pool keeps answering the same server
+        {"nts": 1, "srv": 0, "count": 2, "ops": [["T", [O(7), O(7)]], ["T", [O(7), O(7)]], ["T", [O(8), O(7)]]]},
+        # same name, another NTP port: still the same remote name
+        {"nts": 1, "srv": 0, "count": 3, "ops": [["T", [O(7), O(7, 124), O(8)]], ["R", 0], ["T", [O(8, 124), O(7, 124)]]]},
+        # error ends the round, a refused connection ends the round, a timeout does not
+        {"nts": 1, "srv": 0, "count": 3, "ops": [["T", [O(1), ["E"], O(2), O(3)]], ["T", [["P"], O(2)]], ["T", [O(2), O(3)]]]},
+        {"nts": 1, "srv": 0, "count": 3, "ops": [["T", [O(1), ["X"], O(2), O(3)]], ["T", [["X"]]], ["T", []], ["T", [O(2), O(3), O(4)]]]},
+        {"nts": 1, "srv": 0, "count": 2, "ops": [["T", [["H"], O(3)]], ["R", 5], ["T", [O(3), O(4)]]]},
+        # names that do not resolve, answer without a Server record
+        {"nts": 1, "srv": 0, "count": 3, "ops": [["T", [O(5000), O(9000), O(9000)]], ["T", [O(5000), O(5001), O(1)]], ["R", 0], ["R", 1], ["T", [O(1), O(9000), O(2)]]]},
+        # count boundary, removals of unknown ids, repeated removals
+        {"nts": 1, "srv": 0, "count": 0, "ops": [["T", [O(1)]], ["R", 0], ["T", [O(1), O(2)]]]},
+        {"nts": 1, "srv": 0, "count": 1, "ops": [["T", [O(1), O(2)]], ["R", 0], ["R", 0], ["T", [O(1), O(2)]], ["R", 7], ["T", [O(3)]], ["R", 1], ["T", [O(3)]]]},
+        {"nts": 1, "srv": 0, "count": 5, "ops": [["T", [O(1), O(2), O(3), O(4), O(5), O(255)]], ["R", 2], ["R", 4], ["T", [O(1), O(3), O(256)]], ["T", [O(5)]]]},
+        # "localhost" (no Server record) and "127.0.0.1": two remote names, one socket address, two sources
+        {"nts": 1, "srv": 0, "count": 2, "ops": [["T", [O(9000), O(9001)]], ["R", 0], ["T", [O(9001), O(9000)]]]},
+        # SRV: a resolution whose name has a source is skipped without using up a loop iteration
+        {"nts": 1, "srv": 1, "count": 2, "ops": [["T", [S(3, 7), S(3, 8), END]], ["T", [S(3, 9), S(5, 7), END]]]},
+        # SRV name "localhost" and an answer without Server record on a plain resolution: the same string
+        {"nts": 1, "srv": 1, "count": 3, "ops": [["T", [S(0, 7), S(-1, 9000), ["X", 4], S(-1, 8), END]], ["R", 0],
+                                                  ["T", [["E", 1], S(2, 1), S(4, 2), END]]]},
+        {"nts": 1, "srv": 1, "count": 2, "ops": [["T", [["X", 3], END]], ["T", [END]], ["T", [S(1, 1), S(1, 2), END]]]},
+        # two SRV names, the same server behind both: two sources (the key is the SRV name)
+        {"nts": 1, "srv": 1, "count": 3, "ops": [["T", [S(1, 7), S(2, 7), S(-1, 7), END]], ["R", 1], ["T", [["H", 5], S(2, 5001), S(2, 7), END]]]},
+    ]
+
+
+def nts_correspondence(c, cases, stats):
+    """the NTS pool cases go to their own driver test (verif_c35n_driver in harness/ntpd/c35n.rs) and are
+    compared with run_nts; vplib.correspondence takes the driver name from c.prop"""
+    def nontrivial(case, out):
+        r = nts_split_output(case, out)
+        return r is not None and sum(len(x[2]) for x in r[0] if x[0] == "T") >= 2 and any(op[0] == "R" for op in case["ops"])
+
+    def coq_case(case, out):
+        if out and out[0] == "PANIC":
+            return nts_coq_input(case), "[(-999)%Z]"
+        try:
+            o = vplib.coq_list([vplib.zlit(int(x)) for x in out[:-1]])      # without the same-address observation
+        except ValueError:
+            o = "[(-998)%Z]"
+        return nts_coq_input(case), o
+
+    saved = (c.prop, c.cov.get("model_mismatches", 0), c.cov.get("model_cases", 0))
+    c.prop = "C35N"
+    try:
+        outs = vplib.correspondence(
+            c, "ntpd", cases,
+            line_of=nts_line_of,
+            coq_case_of=coq_case,
+            preamble="From V Require Import Model.Pool.\n",
+            checker="mismatches zlist_eqb run_nts_any",
+            monitor=nts_monitor,
+            nontrivial=nontrivial,
+            corr_name="correspondence C35 NTS pool model <-> ntpd harness (real key exchanges on loopback)",
+            sample_of=lambda case, out: {"input": "nts " + nts_line_of(case), "implementation": " ".join(out)},
+            shard=250,
+        )
+    finally:
+        c.prop = saved[0]
+    c.cov["model_mismatches"] = c.cov.get("model_mismatches", 0) + saved[1]
+    c.cov["model_cases"] = c.cov.get("model_cases", 0) + saved[2]
+    if outs:
+        created = conns = rounds = same = 0
+        for i, case in enumerate(cases):
+            r = nts_split_output(case, outs.get(i, []))
+            if r is None:
+                continue
+            same += 1 if outs[i][-1] == "1" else 0
+            for rec in r[0]:
+                if rec[0] == "T":
+                    rounds += 1
+                    conns += rec[1]
+                    created += len(rec[2])
+        stats.update({"nts_cases": len(cases), "nts_spawn_rounds": rounds, "nts_key_exchange_connections": conns,
+                      "nts_sources_created": created, "nts_srv_cases": sum(1 for x in cases if x.get("srv")),
+                      "nts_cases_with_two_current_sources_at_the_same_socket_address": same})
+    return outs
+
+
 def main():
     c = vplib.Check("C35")
     c.run_gate()
@@ -285,7 +565,10 @@ def main():
             o = "[(-998)%Z]"
         return coq_input(case), o
 
-    outs = vplib.correspondence(
+    # a stored failing case of the NTS pool part is replayed on its own driver only, one of the pool part on this one only
+    rp = vplib.replay_cases()
+    replay_nts = bool(rp) and isinstance(rp[0], dict) and bool(rp[0].get("nts"))
+    outs = None if replay_nts else vplib.correspondence(
         c, "ntpd", cases,
         line_of=line_of,
         coq_case_of=coq_case,
@@ -314,6 +597,24 @@ def main():
                       "spawn_rounds_creating_sources": rounds_with_events, "sources_created": created,
                       "cases_ending_with_leftover_known_ips": skipped_known,
                       "final_active_sources_histogram": dict(sorted(final_sizes.items()))})
+    # ---- NTS pool part: generated after the pool cases, so those are the same as before for a given seed
+    nts_cases = nts_fixed_cases()
+    n_nts, n_hang = (400, 40) if c.tier == "quick" else (4000, 400)
+    for i in range(n_nts):
+        # a few cases contain connections that are never answered (5 s each; they overlap in the harness's worker threads)
+        nts_cases.append(nts_gen_case(rng, stats, hang=(rng.choice([1, 1, 2]) if i < n_hang else 0), srv=i % 2))
+    if not rp or replay_nts:
+        nts_outs = nts_correspondence(c, nts_cases, stats)
+        if nts_outs:
+            for i in (0, len(nts_cases) // 2):
+                c.sample({"input": "nts " + nts_line_of(nts_cases[i]), "implementation": " ".join(nts_outs.get(i, []))}, limit=8)
+    c.cov["rule"] += ("; NTS pool: whole histories on the real NtsPoolSpawner (enable_srv_resolution = false) against a real "
+                      "key exchange server on a loopback port (ntp-proto KeyExchangeServer, repository test certificate) whose "
+                      "behaviour per accepted connection is scripted: answers naming a scripted server (repeated names, names "
+                      "already active, same name with another port, names that do not resolve, no Server record), dropped "
+                      "connections, no common protocol, never answered (NTS_TIMEOUT), listener closed; interleaved with "
+                      "removals; compared per operation: connections accepted by the server, SpawnEvents (id, name the source "
+                      "is filed under), is_complete, and at the end the private current_sources")
     c.cov["distribution"] = stats
     c.assumptions += [
         "model of PoolSpawner written by hand (coq/Model/Pool.v), of the code WITH the repair of branch fix-c35; tied to the "
@@ -322,7 +623,21 @@ def main():
         "NormalizedAddress::with_hardcoded_dns (its rotate-by-one is undone by the harness); an unresolvable name is a real "
         "lookup of an invalid host name",
         "ClockId::new() returns fresh ids (a global counter); the harness renumbers them in order of creation",
-        "NTS pool (nts_pool.rs): model only, nothing of it runs here (TCP + TLS key exchange needed); theorem marked _partial",
+        "NTS pool (nts_pool.rs): the oracle model (one outcome per loop iteration of try_spawn) is tied to the real "
+        "NtsPoolSpawner by harness/ntpd/c35n.rs: real TCP + TLS key exchanges with ntp-proto's KeyExchangeServer on loopback "
+        "ports (repository test certificate, CA given through certificate_authorities), one scripted behaviour per accepted "
+        "connection; with enable_srv_resolution the private queue known_resolutions is replaced before every round by scripted "
+        "resolutions ending with a closed port, so resolve_ke (DNS / SRV lookup) never runs and queue entries never survive a "
+        "round; the scripted server ignores the denied-server list the client sends (as the real KeyExchangeServer does): the "
+        "model assumes nothing about the pool honouring it",
+        "NTS pool names: server names are IPv4 literals in 127.1.0.0/16 (resolve without DNS), 'no such host <k>.invalid' "
+        "(do not resolve), 'localhost' / '127.0.0.1'; SRV names are case variants of 'localhost' (the certificate is for "
+        "localhost; rustls matches case-insensitively, the spawner compares strings exactly)",
+        "NTS pool timeouts are real: a never-answered connection costs NTS_TIMEOUT = 5 s of wall time; an exchange that takes "
+        "longer than 5 s on an overloaded machine would show up as a model mismatch (not as a failing input)",
+        "theorem C35_nts_pool_bounded_distinct_names_partial stays partial: distinctness is by remote name; the harness observes "
+        "real runs with two current sources at one socket address (distribution: nts_cases_with_two_current_sources_at_the_"
+        "same_socket_address)",
     ]
     return c.finish()
 
@@ -336,12 +651,20 @@ MANIFEST = {
             "spawner's current_sources equals the active set of the trace (C35_state_is_active) and is_complete holds exactly "
             "when count is reached (C35_complete_iff). The model is the code with the repair of branch fix-c35; the same model "
             "without the repair violates distinctness on count=2, answer [A;A] (C35_distinct_refuted_before_fix), which is "
-            "what the check reports with a replay on a tree without the fix. NTS pool: model-only, bounded and distinct "
-            "remote names (C35_nts_pool_bounded_distinct_names_partial).",
-    "note": "Trusted: Coq kernel+vm_compute; hand-written model coq/Model/Pool.v; harness harness/ntpd/c35.rs + this driver; "
-            "DNS answers as oracle (scripted via with_hardcoded_dns under cfg(test)); freshness of ClockId::new(). Partial: the "
-            "NTS pool variant is not tied to the code (needs TCP+TLS) and its distinctness is by remote name, not by resolved "
-            "socket address (the code does not compare addresses there); its config has no ignore list. Print Assumptions: "
-            "closed under the global context for all theorems.",
+            "what the check reports with a replay on a tree without the fix. NTS pool (C35_nts_pool_bounded_distinct_names_"
+            "partial): for every count and every history of spawn rounds (any outcome of connection, key exchange and name "
+            "resolution per loop iteration) and removals, at most `count` sources and pairwise different remote NAMES; tied to "
+            "the real NtsPoolSpawner through real key exchanges against a scripted server on loopback, without and with SRV "
+            "resolution (C35_nts_tie_runs_the_model, C35_nts_srv_tie_runs_the_model: the compared functions run the model of "
+            "the theorem). Partial because the property speaks of server addresses: different names resolving to one socket "
+            "address are not excluded, neither by the theorem nor by the code (observed on the real spawner).",
+    "note": "Trusted: Coq kernel+vm_compute; hand-written model coq/Model/Pool.v (incl. the model of lookup() for the SRV queue); "
+            "harnesses harness/ntpd/c35.rs, harness/ntpd/c35n.rs + this driver; DNS answers as oracle (scripted via "
+            "with_hardcoded_dns under cfg(test)); freshness of ClockId::new(). NTS pool: connection / key exchange / resolution "
+            "outcomes are oracles of the model, produced in the tie by ntp-proto's real KeyExchangeServer with the repository's "
+            "test certificate and scripted per connection; not exercised: resolve_ke (DNS, SRV lookup), resolutions left over "
+            "from an earlier round, a pool that honours the denied-server list, TLS failures other than a dropped connection. "
+            "NTS pool distinctness is by remote name, not by resolved socket address (the code does not compare addresses "
+            "there); its config has no ignore list. Print Assumptions: closed under the global context for all theorems.",
     "design_ref": "DESIGN.md 3 C35, 4 row 8",
 }
